@@ -463,3 +463,73 @@ func (k *RSASecret) Check() []string {
 	}
 	return bad
 }
+
+// SigParts splits the body of a version 4 signature packet (§5.2.3) into what
+// an independent verifier needs: the hashed prefix (version .. end of hashed
+// subpackets), the §5.2.4 trailer to append after it, the left 16 bits of the
+// digest, and the signature MPIs.
+type SigParts struct {
+	SigType, PKAlgo, Hash int
+	HashedPrefix          []byte
+	Trailer               []byte // 0x04 0xFF + four-octet big-endian len(HashedPrefix)
+	HashTag               [2]byte
+	MPIs                  []*big.Int
+}
+
+// ParseSigV4 parses a v4 signature packet body.
+func ParseSigV4(b []byte) (*SigParts, error) {
+	if len(b) < 6 || b[0] != 4 {
+		return nil, errors.New("not a v4 signature")
+	}
+	hl := int(be(b[4:6]))
+	if 6+hl+2 > len(b) {
+		return nil, errors.New("hashed area overruns the packet")
+	}
+	p := &SigParts{SigType: int(b[1]), PKAlgo: int(b[2]), Hash: int(b[3])}
+	p.HashedPrefix = append([]byte(nil), b[:6+hl]...)
+	n := len(p.HashedPrefix)
+	p.Trailer = []byte{4, 0xff, byte(n >> 24), byte(n >> 16), byte(n >> 8), byte(n)}
+	ul := int(be(b[6+hl : 8+hl]))
+	pos := 8 + hl + ul
+	if pos+2 > len(b) {
+		return nil, errors.New("unhashed area overruns the packet")
+	}
+	copy(p.HashTag[:], b[pos:pos+2])
+	pos += 2
+	for pos < len(b) {
+		if pos+2 > len(b) {
+			return nil, errors.New("truncated MPI")
+		}
+		nb := (int(be(b[pos:pos+2])) + 7) / 8
+		if pos+2+nb > len(b) {
+			return nil, errors.New("truncated MPI")
+		}
+		p.MPIs = append(p.MPIs, new(big.Int).SetBytes(b[pos+2:pos+2+nb]))
+		pos += 2 + nb
+	}
+	return p, nil
+}
+
+// CanonicalText is RFC 4880 §5.2.1 for a text whose every CR is the first half
+// of a CRLF pair: each line ending (LF or CRLF) becomes CRLF. ok is false if
+// the text has a CR elsewhere (the RFC does not say what it is then).
+func CanonicalText(text []byte) (canon []byte, ok bool) {
+	ok = true
+	for i, c := range text {
+		switch c {
+		case '\r':
+			if i+1 >= len(text) || text[i+1] != '\n' {
+				ok = false
+			}
+			canon = append(canon, c)
+		case '\n':
+			if i == 0 || text[i-1] != '\r' {
+				canon = append(canon, '\r')
+			}
+			canon = append(canon, c)
+		default:
+			canon = append(canon, c)
+		}
+	}
+	return canon, ok
+}
